@@ -195,7 +195,49 @@ func (x *runner) runHistory(h *History, count bool) (fails []failure) {
 	var db *chain.BlockDB
 	var cur Opts
 	retention := false // some configuration of this history lets data files fall out of retention
-	rollover := false
+
+	// retention, decided on the real directory only: data files that disappeared from the main directory without
+	// being moved to oldat/, and the data-file number stored in the real index record of a block
+	present := map[uint64]bool{}
+	removed := map[uint64]bool{}
+	scanDir := func() {
+		now := map[uint64]bool{}
+		l, _ := os.ReadDir(dir)
+		for _, e := range l {
+			var idx uint64
+			n := e.Name()
+			if n == "blockchain.dat" {
+				now[0] = true
+			} else if _, err := fmt.Sscanf(n, "blockchain-%08x.dat", &idx); err == nil {
+				now[idx] = true
+			} else if _, err := fmt.Sscanf(n, "bl%08d.dat", &idx); err == nil {
+				now[idx] = true
+			}
+		}
+		for idx := range present {
+			if !now[idx] {
+				if _, err := os.Stat(filepath.Join(dir, "oldat", fmt.Sprintf("bl%08d.dat", idx))); err != nil {
+					removed[idx] = true
+				}
+			}
+		}
+		present = now
+	}
+	outOfRetention := func(b int) bool {
+		if !retention || b < 0 || b >= len(datas) {
+			return false
+		}
+		ix, _ := os.ReadFile(filepath.Join(dir, "blockchain.new"))
+		found := false
+		for p := 0; p+136 <= len(ix); p += 136 {
+			if bytes.Equal(ix[p+56:p+136], datas[b][:80]) && ix[p]&2 == 0 {
+				if removed[uint64(ix[p+28])|uint64(ix[p+29])<<8|uint64(ix[p+30])<<16|uint64(ix[p+31])<<24] {
+					found = true
+				}
+			}
+		}
+		return found
+	}
 
 	for opi, op := range h.Ops {
 		hs := hashOf(op.B)
@@ -221,9 +263,6 @@ func (x *runner) runHistory(h *History, count bool) (fails []failure) {
 				continue
 			}
 			cur = *op.Opts
-			if cur.MaxFile != 0 {
-				rollover = true
-			}
 			if cur.Keep != 0 && !cur.Backup {
 				retention = true
 			}
@@ -310,13 +349,15 @@ func (x *runner) runHistory(h *History, count bool) (fails []failure) {
 				}
 			} else if !re.tainted && !panicked {
 				if e != nil {
-					if !(retention && rollover && errKind(e) == "nofile") {
+					if !outOfRetention(op.B) {
 						fail("prop", "get-stored-fails", fmt.Sprintf("%s: BlockGet of stored block %x fails: %v", where, hs[:8], e))
 					} else {
 						hit("get:out-of-retention")
 					}
 				} else {
-					if !bytes.Equal(bl, re.data) {
+					if !bytes.Equal(bl, re.data) && outOfRetention(op.B) {
+						hit("get:out-of-retention-overwritten")
+					} else if !bytes.Equal(bl, re.data) {
 						fail("prop", "get-wrong-bytes", fmt.Sprintf("%s: BlockGet of %x returns %d bytes that differ from the %d stored", where, hs[:8], len(bl), len(re.data)))
 					}
 					if tr != re.trusted {
@@ -385,6 +426,9 @@ func (x *runner) runHistory(h *History, count bool) (fails []failure) {
 		}
 		if op.Op == "close" {
 			db = nil
+			if retention {
+				scanDir()
+			}
 			rf := dirFiles(dir)
 			mf := x.o.MustAsk("files")
 			if rf != mf {
@@ -394,6 +438,9 @@ func (x *runner) runHistory(h *History, count bool) (fails []failure) {
 			}
 		} else if db != nil {
 			db.VerifWaitDataFiles()
+			if retention {
+				scanDir()
+			}
 			a, b, c, q, cc := db.VerifPositions()
 			rp := fmt.Sprintf("pos %d %d %d %d %d", a, b, c, q, cc)
 			mp := x.o.MustAsk("pos")
